@@ -187,6 +187,26 @@ func mergeServicesSSA(e *Env, name string) (decided bool, ok bool) {
 	var firstPos, mergePos, newPos token.Pos
 	first, merge, newKey := false, false, false
 	bad := ""
+	// every store goes into the map that is returned (not into an operand)
+	rootOf := func(v ssa.Value) ssa.Value {
+		if ld, isLd := v.(*ssa.UnOp); isLd && ld.Op == token.MUL {
+			return cellOf(ld.X, bind)
+		}
+		return v
+	}
+	var retRoot ssa.Value
+	for _, b := range fn.Blocks {
+		if ret, isRet := b.Instrs[len(b.Instrs)-1].(*ssa.Return); isRet && len(ret.Results) == 1 && !isNilConst(ret.Results[0]) {
+			retRoot = rootOf(ret.Results[0])
+		}
+	}
+	for _, s := range stores {
+		if op := operand(s.ins.Map, 0); op != "" {
+			bad = "a store into the operand " + op + " instead of the result: " + e.P.Pos(s.ins.Pos())
+		} else if retRoot != nil && rootOf(s.ins.Map) != retRoot {
+			bad = "a store into a map that is not the returned one: " + e.P.Pos(s.ins.Pos())
+		}
+	}
 	for _, s := range stores {
 		switch s.c.kind {
 		case "a":
